@@ -15,7 +15,8 @@ from c05 import INT_T, BLK_T, defbytes, neight, rnd_f64, rnd_arg, case_label
 
 PROP = "C06"
 ENG_NAME = {"i": "interp-shim", "0": "gen-O0", "1": "gen-O1", "2": "gen-O2", "3": "gen-O3", "L": "lazy-gen(first call)", "l": "lazy-gen(second call)"}
-TIERS = {"quick": {"engines": "i 2 L", "bodies": 1, "stride": 1}, "thorough": {"engines": "i 0 1 2 3 L", "bodies": 2, "stride": 1}}
+TIERS = {"quick": {"engines": "i 2 L", "bodies": 1, "stride": 1, "res_stride": 3},
+         "thorough": {"engines": "i 0 1 2 3 L", "bodies": 2, "stride": 1, "res_stride": 1}}
 M32 = 281470681808895          # 0x0000FFFF0000FFFF
 NLIVE_I, NLIVE_D = 20, 8
 ASZ = [1, 8, 24, 100, 1000, 4104, 16, 40]
@@ -244,6 +245,8 @@ def plan(cases, tier, rng0):
         rng = random.Random(rng0.getrandbits(64))
         if ci % T["stride"]:
             continue
+        if c["tag"] == "res" and (ci // 1) % T["res_stride"]:
+            continue        # quick tier: every res_stride-th result list (all of them in the thorough tier and in C05)
         if c["nfix"] == 0:
             continue        # MIR defines no variadic *function* without a named parameter (soundness rule 1)
         restypes = [r["t"] for r in c["res"]] if c["tag"] in ("res", "sim") else reslists[(ci * 7) % len(reslists)]
@@ -374,7 +377,7 @@ def events(j, eng, r):
     return [call, ob, ret]
 
 
-def validate(evs, workdir, nchunks=4):
+def validate(evs, workdir, nchunks=6):
     """run TraceABI over the events (split at Call boundaries); returns {(id, eng): [fail records]}"""
     triples = [evs[k:k + 3] for k in range(0, len(evs), 3)]
     if not triples:
@@ -387,7 +390,7 @@ def validate(evs, workdir, nchunks=4):
             for t in triples[k:k + per]:
                 for e in t:
                     f.write(json.dumps(e) + "\n")
-        jobs.append(dict(module="TraceABI", cfg="TraceABI.cfg", workers=1, env={"TRACE": path}, heap="3g", timeout=1500))
+        jobs.append(dict(module="TraceABI", cfg="TraceABI.cfg", workers=1, env={"TRACE": path}, heap="2g", timeout=1500))
     rs = vlib.parallel_tlc(jobs, maxpar=nchunks)
     fails, nst = {}, 0
     for r in rs:
@@ -502,8 +505,8 @@ def job_from_rec(rec):
 # makes the execution pass.  Everything the repairs do not cure keeps its raw key and alarms.  When a repair does
 # not apply to the tree under test any more, the series stops there (nothing is attributed to it).
 FIX_SERIES = [("callee:ld_stack_unaligned", "C05-ld-stack-align.diff"),
+              ("callee:gen_va_start", "C06-gen-va-start.diff"),          # (edits the loop the previous repair touches)
               ("callee:va_block_arg_sse", "C06-va-block-arg-sse.diff"),
-              ("callee:gen_va_start", "C06-gen-va-start.diff"),
               ("callee:gvn_va_block_arg", "C06-gvn-va-block-arg.diff")]
 
 
